@@ -1,6 +1,21 @@
 """./check --setup: build the harness once and parse every specification (offline, from files on disk)."""
-import glob, os, subprocess, sys
+import glob, os, re, subprocess, sys
 import vlib
+
+
+SANY_CP = "/opt/veriftools/tla/tla2tools.jar:/opt/veriftools/tla/CommunityModules-deps.jar"
+
+
+def tlaps_stdlib():
+    import shutil
+    exe = shutil.which("tlapm")
+    cands = ["/opt/veriftools/tlapm/lib/tlapm/stdlib"]
+    if exe:
+        cands.insert(0, os.path.join(os.path.dirname(os.path.dirname(os.path.realpath(exe))), "lib", "tlapm", "stdlib"))
+    for c in cands:
+        if os.path.exists(os.path.join(c, "TLAPS.tla")):
+            return c
+    return None
 
 
 def main():
@@ -13,7 +28,15 @@ def main():
     sd = vlib.specdir()
     bad = 0
     for tla in sorted(glob.glob(os.path.join(sd, "*.tla"))):
-        p = subprocess.run(["timeout", "120", "tla-sany", os.path.basename(tla)], cwd=sd, capture_output=True, text=True)
+        cmd = ["timeout", "120", "tla-sany", os.path.basename(tla)]
+        if re.search(r"EXTENDS[^\n]*\bTLAPS\b", open(tla).read()):
+            # a proof module: the proof system's standard module TLAPS is not on SANY's path
+            lib = tlaps_stdlib()
+            if lib is None:
+                print("setup: sany %-22s skipped (proof module; the proof system's standard library was not found)" % os.path.basename(tla))
+                continue
+            cmd = ["timeout", "120", "java", "-DTLA-Library=" + lib, "-cp", SANY_CP, "tla2sany.SANY", os.path.basename(tla)]
+        p = subprocess.run(cmd, cwd=sd, capture_output=True, text=True)
         ok = p.returncode == 0 and "Semantic errors" not in p.stdout and "Fatal errors" not in p.stdout and "Parse Error" not in p.stdout and "Could not parse" not in p.stdout
         print("setup: sany %-22s %s" % (os.path.basename(tla), "ok" if ok else "FAILED"))
         if not ok:
